@@ -297,7 +297,9 @@ def prove(pc, prop, timeout_ms=60000):
   if r == z3.unsat:
     if os.environ.get('VERIF_CROSS') == '1':
       x = cross_check(s)
-      if x not in ('unsat', None): return 'unknown', f'cvc5 disagrees: {x}'
+      if x == 'sat': return 'unknown', 'cvc5 disagrees with z3: sat'
+      if x == 'unsat': core.STATS.cross_ok += 1
+      else: core.STATS.cross_unknown += 1
     return 'unsat', None
   if r == z3.sat: return 'sat', s.model()
   return 'unknown', s.reason_unknown()
